@@ -54,11 +54,11 @@ def observe_tree(tree, working):
     return root, out
 
 
-def observe_changes(wt):
-    """Canonical iter_changes(basis): {fid: (old, new, changed_content)}, old/new = (parent, name, kind, exec) | None."""
+def observe_changes(wt, target=None):
+    """Canonical iter_changes(target; default: the basis tree): {fid: (old, new, changed_content)}, old/new = (parent, name, kind, exec) | None."""
     out = {}
     with wt.lock_read():
-        basis = wt.basis_tree()
+        basis = target if target is not None else wt.basis_tree()
         with basis.lock_read():
             for c in wt.iter_changes(basis):
                 def side(i):
